@@ -57,9 +57,10 @@ OppositeRefuted ==
         THEN "C09.AcceptedStatus" \in Verdict(last.c, roots, Ideal(last.c, {}))
         ELSE {"C09.RejectedClientError", "C09.RejectedNoLeaf"} \subseteq Verdict(last.c, roots, opp)
 
-\* every mutant model is refuted somewhere in the table, in some generation
+\* every mutant model is refuted somewhere in the table (the first generation
+\* is enough: it has a known, a not yet known and a never known root)
 RefutedBy == [m \in Mutants |->
-                UNION {Verdict(CaseSeq[k], Schedule[g], MAnswer(m, CaseSeq[k], Schedule[g])) : g \in Gens, k \in 1..NCases}]
+                UNION {Verdict(CaseSeq[k], Schedule[1], MAnswer(m, CaseSeq[k], Schedule[1])) : k \in 1..NCases}]
 MutantsRefuted == \A m \in Mutants : RefutedBy[m] # {}
 \* ... and every formula is load-bearing: some mutant violates it
 Formulas == {"C09.AcceptedStatus", "C09.AcceptedSCT", "C09.LoggedBytes", "C09.IssuerKeyHash",
